@@ -105,8 +105,14 @@ def run(R, tier):
                     if "ErrorQueue" in (body.impl_trait or ""):
                         continue
                     seen[m].add(body.npath)
+    def _is_allowed(c, m):
+        return any(c == a or (not a.startswith("scpi_contrib::") and a in c) for a in allowed[m])
+
     for m, callers in seen.items():
-        bad = [c for c in callers if not any(c == a or (not a.startswith("scpi_contrib::") and a in c) for a in allowed[m])]
+        # a crate-private helper all of whose callers are allowed callers (the read-and-clear of *ESR? moved next to the
+        # trait, say) acts for them: its effect is part of their tables, which analyse it in place
+        roots = tuple(sorted({x.npath for unit in (uc, us) for x in unit.bodies if _is_allowed(x.npath, m)}))
+        bad = [c for c in callers if not _is_allowed(c, m) and not D.only_reached_from(P, c, roots)]
         R.check(not bad and callers, "R13.3", "callers:" + m, "%s called only from %s" % (m, sorted(x.split("::")[-1] if "::" in x else x for x in allowed[m])), "%s is called from %s: only %s may (every queued item must be a reported failure or an *OPC event; ESR bits must come from errors)" % (m, sorted(bad) or "nowhere", sorted(allowed[m])))
 
     # ---- R13.4-7 SYSTem:ERRor handlers and *ESR? on the abstract device ----------------------------------------------------
